@@ -263,3 +263,176 @@ func TestC12Concurrent(t *testing.T) {
 		out.End()
 	}
 }
+
+// c12Wrap: a request of client A stays unacknowledged while another Client in the
+// same process issues so many id-less requests that automatic numbering comes
+// round to A's identifier; A's next request must still get an identifier that is
+// not in flight on A's connection, and both of A's requests must complete.
+func c12Wrap(idx int, seed uint64) {
+	kind := []string{"pub1", "sub", "pub2", "unsub"}[idx%4]
+	params := map[string]interface{}{"case": idx, "kind": kind}
+	a, err := openSession(nil, 0)
+	if err != nil {
+		out.Inconclusive("session: "+err.Error(), nil)
+		return
+	}
+	defer a.closeAll()
+	b, err := openSession(rawclient.AckPrompt, 1<<20)
+	if err != nil {
+		out.Inconclusive("session: "+err.Error(), nil)
+		return
+	}
+	defer b.closeAll()
+	var firedA [2]int32
+	issueA := func(n int) error {
+		cb := func(msg, ack message.Message, err error) error { atomic.AddInt32(&firedA[n], 1); return nil }
+		topic := []byte(fmt.Sprintf("c12w/a/%d", n))
+		switch kind {
+		case "pub1", "pub2":
+			m := message.NewPublishMessage()
+			m.SetTopic(topic)
+			m.SetQoS(byte(kind[3] - '0'))
+			m.SetPayload(spec.MakePayload(uint64(n+1), 0, 20))
+			return a.cln.Publish(m, cb)
+		case "sub":
+			m := message.NewSubscribeMessage()
+			m.AddTopic(topic, 1)
+			return a.cln.Subscribe(m, cb, func(*message.PublishMessage) error { return nil })
+		}
+		m := message.NewUnsubscribeMessage()
+		m.AddTopic(topic)
+		return a.cln.Unsubscribe(m, cb)
+	}
+	isReq := func(p *rc.Packet) bool {
+		return (p.Type == rc.PUBLISH && p.QoS > 0) || p.Type == rc.SUBSCRIBE || p.Type == rc.UNSUBSCRIBE
+	}
+	reqsOf := func(s *session, n int) []*rc.Packet {
+		var ps []*rc.Packet
+		s.srv.WaitFor(func(l []rawclient.Event, closed bool) bool {
+			ps = ps[:0]
+			for _, e := range l {
+				if isReq(e.P) {
+					ps = append(ps, e.P)
+				}
+			}
+			return len(ps) >= n
+		}, 30*time.Second)
+		return ps
+	}
+	if err := issueA(0); err != nil {
+		out.Violation("c12:request-error", err.Error(), params)
+		return
+	}
+	pa := reqsOf(a, 1)
+	if len(pa) != 1 || pa[0].ID == 0 {
+		out.Violation("c12:wire", fmt.Sprintf("A's first request on the wire: %v", pa), params)
+		return
+	}
+	X := pa[0].ID
+	pred := X - 1
+	if pred == 0 {
+		pred = 65535
+	}
+	// B: id-less QoS 1 publishes, acknowledged at once, until the numbering B draws from stands just before X
+	var doneB int64
+	issueB := func() error {
+		m := message.NewPublishMessage()
+		m.SetTopic([]byte("c12w/b"))
+		m.SetQoS(1)
+		m.SetPayload([]byte("x"))
+		return b.cln.Publish(m, func(msg, ack message.Message, err error) error { atomic.AddInt64(&doneB, 1); return nil })
+	}
+	nb := 0
+	lastB := func() uint16 {
+		ps := reqsOf(b, nb)
+		if len(ps) < nb {
+			return 0
+		}
+		return ps[nb-1].ID
+	}
+	fail := func(e error) { out.Violation("c12:request-error", "B: "+e.Error(), params) }
+	for i := 0; i < 64000; i++ {
+		if err := issueB(); err != nil {
+			fail(err)
+			return
+		}
+		nb++
+	}
+	reached := false
+	for i := 0; i < 140000; i++ {
+		if l := lastB(); l == pred {
+			reached = true
+			break
+		} else if l == 0 {
+			break
+		}
+		if err := issueB(); err != nil {
+			fail(err)
+			return
+		}
+		nb++
+	}
+	if !reached {
+		out.Inconclusive("c12wrap: B's numbering never stood just before A's identifier", params)
+		return
+	}
+	if err := issueA(1); err != nil {
+		out.Violation("c12:request-error", err.Error(), params)
+		return
+	}
+	pa = reqsOf(a, 2)
+	if len(pa) != 2 {
+		out.Violation("c12:wire", "A's second request is not on the wire", params)
+		return
+	}
+	if pa[1].ID == 0 || pa[1].ID == X {
+		out.Violation("c12:packet-id-duplicate", fmt.Sprintf("client A: %s request with identifier %d is unacknowledged; after %d id-less requests of another Client in the process, A's next request went out with identifier %d", kind, X, nb, pa[1].ID), params)
+		return
+	}
+	// acknowledge both; both completions must fire exactly once
+	for _, p := range pa {
+		switch {
+		case p.Type == rc.PUBLISH && p.QoS == 2:
+			a.srv.SendPacket(&rc.Packet{Type: rc.PUBREC, ID: p.ID})
+		case p.Type == rc.PUBLISH:
+			a.srv.SendPacket(&rc.Packet{Type: rc.PUBACK, ID: p.ID})
+		case p.Type == rc.SUBSCRIBE:
+			a.srv.SendPacket(&rc.Packet{Type: rc.SUBACK, ID: p.ID, Codes: []byte{1}})
+		default:
+			a.srv.SendPacket(&rc.Packet{Type: rc.UNSUBACK, ID: p.ID})
+		}
+	}
+	if kind == "pub2" {
+		a.srv.WaitFor(func(l []rawclient.Event, closed bool) bool { return countType(l, rc.PUBREL) >= 2 }, 10*time.Second)
+		for _, p := range pa {
+			a.srv.SendPacket(&rc.Packet{Type: rc.PUBCOMP, ID: p.ID})
+		}
+	}
+	if !a.barrier(10 * time.Second) {
+		out.Inconclusive("c12wrap: no PINGRESP", params)
+		return
+	}
+	for n := 0; n < 2; n++ {
+		if f := atomic.LoadInt32(&firedA[n]); f != 1 {
+			out.Violation("c12:completion-count", fmt.Sprintf("client A request %d (identifier %d): acknowledged, completion fired %d times", n, pa[n].ID, f), params)
+			return
+		}
+	}
+	out.Count("c12.wrap_cases", 1)
+	out.Count("c12.wrap_other_client_requests", int64(nb))
+	out.Class("wrap/" + kind)
+}
+
+func TestC12Wrap(t *testing.T) {
+	n := pick(4, 16)
+	for g := 0; g < n; g++ {
+		id := fmt.Sprintf("c12/wrap/%d", g)
+		if !mine(g) || !out.Only(id) {
+			continue
+		}
+		seed := caseSeed("c12w", g)
+		out.Begin(id, seed, nil)
+		c12Wrap(g, seed)
+		out.End()
+	}
+}
